@@ -19,10 +19,10 @@ META = dict(
           'same finished model (or all raise). non-trivial = distinct (logic, model, sentence, world) evaluations of sentences with '
           '>= 1 operator/quantifier.'),
     assumptions=['REF-SEM semantics incl. lattice reading of the FDE family and the empty-domain convention (exists = bottom, forall = top)'],
-    min_events={'quick': {'evaluations_compared': 150000, 'models_built': 6000, 'frame_closures_checked': 4000, 'permutation_checks': 8000, 'logics': 57},
-                'thorough': {'evaluations_compared': 3000000, 'models_built': 80000, 'logics': 57}},
-    budget=dict(quick=300, thorough=2400),
-    unit_timeout=dict(quick=240, thorough=2000),
+    min_events={'quick': {'evaluations_compared': 150000, 'models_built': 6000, 'frame_closures_checked': 4000, 'permutation_checks': 8000, 'logics': 52},
+                'thorough': {'evaluations_compared': 3000000, 'models_built': 80000, 'logics': 52}},
+    budget=dict(quick=1500, thorough=2400),
+    unit_timeout=dict(quick=900, thorough=3000),
 )
 NMODELS = dict(quick=160, thorough=1500)
 NSENT = dict(quick=30, thorough=60)
